@@ -9,21 +9,31 @@ WHY_MISSED = {
  "C19/3": "same: DeferredSort (readyDeferredSort of child batches) is outside the contracts",
  "C06/3": "the path argument of os.Remove is a string expression; strings are not modelled beyond equality",
  "C07/2": "that a SUCCESSFUL full compaction schedules the superseded file is not decided (compact is `modifies *`; the ghost reclamation state cannot be carried through it)",
+ "C03/r2-2": "DeferredSort (readyDeferredSort of nested child batches) is outside the contracts",
+ "C05/r2-2": "the order in which openStore tries the data files is not under contract (openStore has only the ReadOnly call-site obligations)",
+ "C06/r2-1": "persistBasicSegment (two writer goroutines reporting over a channel) is not under contract",
+ "C07/r2-2": "that the recursive writeSegments call for a child uses the parent's includeDeletes is not stated (the tombstone leg of full compaction is not claimed)",
+ "C07/r2-3": "per-path balance of the FileRef count in compact is not under contract (only the accounting primitives are)",
+ "C11/r2-2": "appendChildStacks is proved for the top level only; its treatment of child stacks (incl. the incarnation filter) is assumed",
+ "C15/r2-3": "per-path balance of the footer count in Store.persist is not under contract",
 }
 log = sys.argv[1]
 rows = {}
 for ln in open(log):
-    m = re.match(r'(DETECTED|MISSED) seeded/(C\d+)/(\d+)/ ?(.*)', ln.strip())
+    m = re.match(r'(DETECTED|MISSED) seeded/(C\d+)/((?:r2-)?\d+)/ ?(.*)', ln.strip())
     if not m:
         continue
     st, p, n, rest = m.groups()
     rest = re.sub(r'^\S* \S* \(\d+s\)\s*|^\(\d+s\)\s*', '', rest)
-    rows[(p, int(n))] = (st, rest.strip())
+    rows[(p, n)] = (st, rest.strip())
 det = sum(1 for v in rows.values() if v[0] == "DETECTED")
 print(f"{det} of {len(rows)} seeded changes are detected by the check of their own property.\n")
 print("| seed | change (file: function) | caught by |")
 print("|---|---|---|")
-for (p, n) in sorted(rows):
+def order(k):
+    p, n = k
+    return (p, 1 if n.startswith("r2-") else 0, int(n.split("-")[-1]))
+for (p, n) in sorted(rows, key=order):
     st, rest = rows[(p, n)]
     meta = {}
     try:
